@@ -1667,3 +1667,64 @@ Example ex_zero_nak_timer :
   Ok [[]; []; []; []; [PAck (set_dir TOWARDS_SENDER ex_h) D_EOF C_NO_ERROR TS_ACTIVE];
       [PNak (set_dir TOWARDS_SENDER ex_h) 0 13 [(4, 8); (12, 13)]; PNak (set_dir TOWARDS_SENDER ex_h) 0 13 [(4, 8); (12, 13)]]].
 Proof. vm_compute. reflexivity. Qed.
+
+(* ================================================================== F35 repair: cancelled states *)
+(* Metadata (size 5), File Data (0,4), EOF (no error, 5), poll (NAK (4,5)), File Data (4, 4 bytes): the last PDU overshoots
+   the EOF file size, File Size Error is declared, its handler cancels: the state after the call is cancelled with the
+   deferred procedure still active *)
+Definition f35_calls : list (Z * option pdu) :=
+  [(0, Some (PMetadata ex_h true CK_NULL 5 (Some ([1], [2])) []));
+   fd_call ex_h (0, (0, [1; 2; 3; 4]));
+   (0, Some (PEof ex_h C_NO_ERROR [0; 0; 0; 0] 5 None)); (0, None);
+   fd_call ex_h (0, (4, [5; 6; 7; 8]))].
+Definition f35_s : dst := fst (calls_d f35_calls (dst_fresh ex_c [])).
+Example f35_run :
+  snd (calls_d f35_calls (dst_fresh ex_c [])) =
+  Ok [[]; []; [PAck (set_dir TOWARDS_SENDER ex_h) D_EOF C_NO_ERROR TS_ACTIVE];
+      [PNak (set_dir TOWARDS_SENDER ex_h) 0 5 [(4, 5)]];
+      [PFinished (set_dir TOWARDS_SENDER ex_h) C_FILE_SIZE_ERROR DATA_INCOMPLETE FS_RETAINED None]] /\
+  p_deferred (d_p f35_s) = true /\ p_disp (d_p f35_s) = DISP_CANCELED /\ p_tracker (d_p f35_s) = [(4, 5)] /\
+  p_proc_timer (d_p f35_s) = Some (0, 1000) /\ p_nak_counter (d_p f35_s) = 0.
+Proof. vm_compute. repeat split; reflexivity. Qed.
+
+(* the statement of deferred_issue without [p_disp (d_p s) <> DISP_CANCELED] is false: f35_s when the NAK timer has expired
+   satisfies every other hypothesis, and the procedure queues nothing although (4, 5) is tracked *)
+Definition f35_s_expired : dst := f35_s <| d_env ::= (fun e => e <| e_now := 1000 |>) |>.
+Example deferred_issue_needs_not_cancelled :
+  p_deferred (d_p f35_s_expired) = true /\ p_rcfg (d_p f35_s_expired) = Some ex_r /\
+  p_file_size_eof (d_p f35_s_expired) = Some 5 /\ p_tracker (d_p f35_s_expired) = [(4, 5)] /\
+  p_proc_timer (d_p f35_s_expired) = Some (0, 1000) /\ timed_out (now_d f35_s_expired) (0, 1000) = true /\
+  p_nak_counter (d_p f35_s_expired) + 1 <> r_nak_limit ex_r /\
+  max_seg_reqs (r_max_packet ex_r) (p_conf (d_p f35_s_expired)) = Some 5 /\
+  deferred_lost_segment_handling f35_s_expired = (f35_s_expired, Ok tt) /\
+  ~ (exists s' naks, deferred_lost_segment_handling f35_s_expired = (s', Ok tt) /\
+       d_queue s' = d_queue f35_s_expired ++ naks /\
+       flat_map nak_reqs naks = (if p_md_missing (d_p f35_s_expired) then [(0, 0)] else []) ++ p_tracker (d_p f35_s_expired)).
+Proof.
+  assert (E : deferred_lost_segment_handling f35_s_expired = (f35_s_expired, Ok tt))
+    by (apply deferred_cancelled_does_nothing; vm_compute; reflexivity).
+  repeat split; try (vm_compute; reflexivity); try exact E.
+  - vm_compute. discriminate.
+  - intros [s' [naks [E' [Hq Hr]]]]. rewrite E in E'. injection E' as <-.
+    assert (Hn : naks = []).
+    { rewrite <- (app_nil_r (d_queue f35_s_expired)) in Hq at 1. apply app_inv_head in Hq. symmetry. exact Hq. }
+    rewrite Hn in Hr. vm_compute in Hr. discriminate Hr.
+Qed.
+
+(* the statement of nothing_missing without [p_disp (d_p s) <> DISP_CANCELED] is false: the same cancelled state with an
+   empty tracker (what a File Data PDU leaves that fills the last tracked range and makes the handler declare a fault in
+   the same call) satisfies every other hypothesis, and the procedure does not move on to the completion step *)
+Definition f35_s_empty : dst := f35_s <| d_p ::= (fun p => p <| p_tracker := [] |>) |>.
+Example nothing_missing_needs_not_cancelled :
+  p_deferred (d_p f35_s_empty) = true /\ p_rcfg (d_p f35_s_empty) = Some ex_r /\
+  p_file_size_eof (d_p f35_s_empty) = Some 5 /\ p_tracker (d_p f35_s_empty) = [] /\ p_md_missing (d_p f35_s_empty) = false /\
+  snd (checksum_verify f35_s_empty) = Ok true /\
+  deferred_lost_segment_handling f35_s_empty = (f35_s_empty, Ok tt) /\
+  d_step f35_s_empty = DS_WAITING_FOR_FINISHED_ACK /\
+  ~ (exists s', deferred_lost_segment_handling f35_s_empty = (s', Ok tt) /\ d_step s' = DS_TRANSFER_COMPLETION).
+Proof.
+  assert (E : deferred_lost_segment_handling f35_s_empty = (f35_s_empty, Ok tt))
+    by (apply deferred_cancelled_does_nothing; vm_compute; reflexivity).
+  repeat split; try (vm_compute; reflexivity); try exact E.
+  intros [s' [E' Hs]]. rewrite E in E'. injection E' as <-. vm_compute in Hs. discriminate Hs.
+Qed.
